@@ -66,10 +66,11 @@ XEff(x, a, unr) ==
 CallPre(m, x, L, res) == L \in Lists /\ m.llive[L] /\ (res => x.comb[L])
 
 -----------------------------------------------------------------------------
-(* Judging one recorded call.  c = [init, arg, ret, over, cbs, combs] with
+(* Judging one recorded call.  c = [init, arg, ret, over, threw, cbs, combs] with
    cbs = sequence of [c |-> connection slot, arg |-> argument seen, r |-> result],
    combs = sequence of [a, b, r] (combiner invocations), over = the driver stopped a
-   call that invoked more callbacks than there are connection slots. *)
+   call that invoked more callbacks than there are connection slots, threw = the call ended
+   with an exception (no callback of the driver throws one). *)
 HasDup(s) == \E i, j \in DOMAIN s : i # j /\ s[i] = s[j]
 
 SeqReasons(tag, got, want) ==
@@ -92,8 +93,9 @@ CallReasons(m, L, c, res) ==
   LET got == [i \in 1..Len(c.cbs) |-> c.cbs[i].c] IN
   SeqReasons("called", got, m.member[L])
   \cup (IF c.over THEN {"call-does-not-end"} ELSE {})
+  \cup (IF c.threw THEN {"call-throws"} ELSE {})
   \cup (IF \A i \in DOMAIN c.cbs : c.cbs[i].arg = c.arg THEN {} ELSE {"callback-argument"})
-  \cup (IF res /\ ~c.over /\ ~FoldChainOK(c) THEN {"left-fold"} ELSE {})
+  \cup (IF res /\ ~c.over /\ ~c.threw /\ ~FoldChainOK(c) THEN {"left-fold"} ELSE {})
 
 UnregReasons(a, unr, got) ==
   LET want == IF a.op = "disconnect" /\ unr THEN <<a.x>> ELSE <<>> IN
@@ -126,7 +128,7 @@ CombChain(acc, rs) ==
 ModelCall(m, L, init, arg) ==
   LET who == IF SigBug = "skip_first" /\ m.member[L] # <<>> THEN Tail(m.member[L]) ELSE m.member[L]
       rs == [i \in 1..Len(who) |-> CbVal(who[i], arg)]
-  IN [init |-> init, arg |-> arg, over |-> FALSE,
+  IN [init |-> init, arg |-> arg, over |-> FALSE, threw |-> FALSE,
       cbs |-> [i \in 1..Len(who) |-> [c |-> who[i], arg |-> arg, r |-> rs[i]]],
       combs |-> CombChain(init, rs),
       ret |-> IF SigBug = "fold_right" THEN FoldRight(init, rs) ELSE FoldLeft(init, rs)]
